@@ -22,6 +22,8 @@ pub const VARIANT: &str = if cfg!(feature = "macro_cfg_dyn_hydrate") {
     "misc"
 } else if cfg!(feature = "macro_cfg_bare") {
     "bare"
+} else if cfg!(feature = "macro_cfg_quiet") {
+    "quiet"
 } else {
     ""
 };
